@@ -107,7 +107,7 @@ int run_case(Reader& r, bool& nontrivial, std::string& desc) {
     struct Cleanup { SimpleString** s; ~Cleanup() { for (int i = 0; i < 3; i++) delete s[i]; } } cleanup{s};
     int nops = 1 + (int)r.below(10);
     int slot_ops[3] = {0, 0, 0};
-    for (int op = 0; op < nops; op++) {
+    for (int op = 0; op < nops && (op == 0 || !r.empty()); op++) {   // an exhausted input ends the sequence
         int i = (int)r.below(3), j = (int)r.below(3), k = (int)r.below(3);
         uint32_t kind = r.below(34);
         std::string ctx = sfmt("op#%d kind=%u i=%d j=%d", op, kind, i, j);
